@@ -523,6 +523,18 @@ func c14Case(w *core.Worker, i int) {
 			if !same(tab0, tab2) {
 				viol("cached-table-changed", "the table differs after ROLLBACK of the only change")
 			}
+			// a WITH table referenced several times in one statement: every reference reads the same rows, whatever the other does with them
+			for _, pair := range [][2]string{
+				{"WITH w AS (SELECT id, c1 FROM t) SELECT id FROM w WHERE id >= 3 UNION ALL SELECT id FROM w;", "SELECT id FROM t WHERE id >= 3 UNION ALL SELECT id FROM t;"},
+				{"WITH w AS (SELECT id, c1 FROM t) SELECT id, (SELECT MAX(id) FROM w WHERE id < 4) FROM w ORDER BY id DESC;", "SELECT id, (SELECT MAX(id) FROM t WHERE id < 4) FROM t ORDER BY id DESC;"},
+				{"WITH w AS (SELECT id, c1 FROM t) SELECT id FROM w WHERE id NOT IN (SELECT id FROM w ORDER BY id DESC LIMIT 1 OFFSET 2);", "SELECT id FROM t WHERE id NOT IN (SELECT id FROM t ORDER BY id DESC LIMIT 1 OFFSET 2);"},
+				{"WITH w AS (SELECT id, c1 FROM t) SELECT a.id, b.c1 FROM w a JOIN (SELECT c1, COUNT(*) AS n FROM w GROUP BY c1) b ON a.c1 = b.c1 ORDER BY a.id, b.c1;", "SELECT a.id, b.c1 FROM t a JOIN (SELECT c1, COUNT(*) AS n FROM t GROUP BY c1) b ON a.c1 = b.c1 ORDER BY a.id, b.c1;"},
+			} {
+				rc, rp := exec(pair[0]), exec(pair[1])
+				if rc.Err == nil && rp.Err == nil && !same(rc, rp) {
+					viol("with-table-reference-changed-another", fmt.Sprintf("%s returns other rows than the same query written without WITH", pair[0]))
+				}
+			}
 			// integer operands outside ordinary function calls (analytic-function arguments, FETCH positions, LIMIT/OFFSET):
 			// as literals of one parsed tree executed twice, and as variables that are read again afterwards
 			exec("VAR @n14 := 2; VAR @m14 := 1; VAR @g14;")
